@@ -8,9 +8,12 @@
    the typed values (frequencies and weekdays upper-cased, BYMONTH as month+leap flag).
    [rule_ok d]: every name is one of the generated canonical_order, every part has at least one
    value and every value satisfies [val_ok] (its own class accepts it and its text decodes back:
-   a decidable condition on ONE value, see Model/Recur.v). *)
+   a decidable condition on ONE value, see Model/Recur.v).
+   [recur_grammar] is the RECUR recogniser written from the ABNF, [rfc_rule_ok] the boolean RFC
+   value domain under which [C19_recur_grammar] proves acceptance of the written text for ALL rules
+   (proofs in Proofs/RecurGrammarProofs.v). *)
 Require Import Lib.Base Gen.Gen_recur Model.Params Model.Sort Model.Caseless Model.Recur
-        Proofs.CaselessProofs Proofs.RecurProofs.
+        Proofs.CaselessProofs Proofs.RecurProofs Proofs.RecurGrammarProofs.
 
 (* decoding the encoded text yields every part with the same typed values in canonical order,
    and encoding that again gives the same text -- for ALL rules with any number of parts, any
@@ -81,6 +84,50 @@ Example C19_negative_month_outside :
   /\ recur_from_ical (s2l "FREQ=DAILY;BYMONTH=-5") = ValueErr.
 Proof. vm_compute. repeat split; reflexivity. Qed.
 Print Assumptions C19_negative_month_outside.
+
+(* ---------------------------------------------------------------- the RECUR grammar *)
+(* for every rule built from any combination of RFC 5545 / RFC 7529 rule parts -- any number of
+   parts in any order, names in any letter case, scalar or list values -- with values in the RFC
+   domain ([rfc_rule_ok]: the round-trip domain [rule_ok], no BYWEEKDAY alias, COUNT/INTERVAL >= 0,
+   BYSECOND 0..60, BYMINUTE 0..59, BYHOUR 0..23, BYMONTHDAY +-1..31, BYYEARDAY/BYSETPOS +-1..366,
+   BYWEEKNO +-1..53, BYMONTH 1..13 with optional leap marker, BYDAY weekdaynum, WKST weekday, RSCALE
+   a token, one value for the single-valued parts, FREQ present, not both COUNT and UNTIL), the text
+   written by vRecur.to_ical is accepted by the recogniser [recur_grammar] written from the ABNF of
+   RFC 5545 3.3.10 / RFC 7529 4.1: every part well formed, every name at most once, FREQ first or
+   directly after RSCALE, COUNT and UNTIL not together *)
+Theorem C19_recur_grammar : forall (items : list (key * rvals)) txt,
+  rfc_rule_ok (recur_new items) = true ->
+  recur_to_ical (recur_new items) = Ok txt ->
+  recur_grammar txt = true.
+Proof. exact recur_grammar_accepts. Qed.
+Print Assumptions C19_recur_grammar.
+
+(* non-vacuity of the grammar theorem: RSCALE + FREQ + UNTIL + BY parts with negative and ordinal
+   values, a leap month given as value and one given as text, names in mixed case and out of order.
+   The rule is inside the guard, is written as shown, and the text is accepted *)
+Definition c19_grammar_rule : rdict :=
+  recur_new [(K"bymonthday", Many [RInt (-1); RInt 15; RInt (-31)]); (K"UNTIL", One (RDateTime 2031 2 28 23 59 59 true));
+             (K"byDay", Many [S"-1su"; S"+2FR"; S"53mo"; S"TH"]); (K"freq", One (S"yearly"));
+             (K"BYMONTH", Many [RInt 1; RMonth 5 true; S"12L"; RInt 13]); (K"ByYearDay", Many [RInt (-366); RInt 100]);
+             (K"byweekno", Many [RInt (-53); RInt 1]); (K"bysetpos", Many [RInt (-1); RInt 366]);
+             (K"byhour", Many [RInt 0; RInt 23]); (K"BYSECOND", One (RInt 60)); (K"interval", One (RInt 2));
+             (K"Rscale", One (S"HEBREW")); (K"skip", One (S"BACKWARD")); (K"wkst", One (S"mo"))].
+Definition c19_grammar_guard : bool := Eval vm_compute in rfc_rule_ok c19_grammar_rule.
+Definition c19_grammar_text : res str := Eval vm_compute in recur_to_ical c19_grammar_rule.
+Definition c19_grammar_expected : str :=
+  s2l "RSCALE=HEBREW;FREQ=YEARLY;UNTIL=20310228T235959Z;INTERVAL=2;BYSECOND=60;BYHOUR=0,23;BYDAY=-1SU,+2FR,53MO,TH;BYMONTHDAY=-1,15,-31;BYYEARDAY=-366,100;BYWEEKNO=-53,1;BYMONTH=1,5L,12L,13;BYSETPOS=-1,366;WKST=MO;SKIP=BACKWARD".
+Example C19_recur_grammar_nonvacuous :
+  rfc_rule_ok c19_grammar_rule = true
+  /\ recur_to_ical c19_grammar_rule = Ok c19_grammar_expected
+  /\ recur_grammar c19_grammar_expected = true.
+Proof.
+  assert (G : rfc_rule_ok c19_grammar_rule = c19_grammar_guard) by (vm_compute; reflexivity).
+  assert (T : recur_to_ical c19_grammar_rule = c19_grammar_text) by (vm_compute; reflexivity).
+  assert (E : c19_grammar_text = Ok c19_grammar_expected) by (vm_compute; reflexivity).
+  split; [rewrite G; reflexivity|]. split; [rewrite T; exact E|].
+  exact (C19_recur_grammar _ _ (eq_trans G eq_refl) (eq_trans T E)).
+Qed.
+Print Assumptions C19_recur_grammar_nonvacuous.
 
 (* ---------------------------------------------------------------- which values are in the domain (val_ok) *)
 (* every integer, for every integer-valued part: int(str(z)) = z *)
